@@ -40,7 +40,7 @@ def run(ctx):
     net_common.s2c_stream(ctx, "GenG_IOStreamIdle.cfg", ctx.pick({"L": 4}, {"L": 5, "Ccs": "{0, 1}"}),
                           [dict(rcs=2, mbs=4), dict(rcs=1, mbs=5)], label="s2c", spread=ctx.quick)
     ctx.cov["exhaustive"] = True
-    net_common.c2s_stream(ctx, "read", n=ctx.pick(100, 3000))
+    net_common.c2s_stream(ctx, "read", n=ctx.pick(100, 800))
     ctx.cov["rule"] = ("paths: every sequence of read(kind)/deliver(chunk<=2 over {a,LF})/eof/close of length <= %d "
                        "through the TLC state graph, each replayed under %d transport variants; plus seeded random "
                        "recorded read programs validated by TLC; distinct = distinct (config, operation sequence, "
